@@ -105,6 +105,16 @@ namespace
         }
     };
 
+    struct FSink   // 1-input sink node (inside the sink form of try_except_)
+    {
+        static constexpr auto name = "c14_fsink";
+        static void start(NodeView node, Scalar<"id", Int> id) { L->events.push_back({'S', node.data(), id.value(), 0}); maybe_fault(id.value(), START); L->events.push_back({'s', node.data(), id.value(), 0}); }
+        static void stop(NodeView node, Scalar<"id", Int> id) { L->events.push_back({'P', node.data(), id.value(), 0}); maybe_fault(id.value(), STOP); L->events.push_back({'p', node.data(), id.value(), 0}); }
+        static void eval(NodeView node, In<"ts", TS<Int>> ts, Scalar<"id", Int> id, DateTime now) { (void)ts; L->events.push_back({'E', node.data(), id.value(), rel(now)}); maybe_fault(id.value(), EVAL); }
+    };
+    struct ErrSink { static constexpr auto name = "c14_err_sink"; static void eval(In<"e", TS<NodeError>> e) { (void)e; } };
+    struct TrySubV { static constexpr auto name = "c14_try_sub_value"; static Port<TS<Int>> compose(Wiring &w, Port<TS<Int>> in) { return wire<FNode>(w, wire<FNode>(w, in, Int{41}), Int{42}); } };
+    struct TrySubK { static constexpr auto name = "c14_try_sub_sink"; static void compose(Wiring &w, Port<TS<Int>> in) { wire<FSink>(w, wire<FNode>(w, in, Int{41}), Int{43}); } };
     struct Sub { static constexpr auto name = "c14_sub"; static Port<TS<Int>> compose(Wiring &w, Port<TS<Int>> in) { return wire<FNode>(w, wire<FNode>(w, in, Int{11}), Int{12}); } };
     struct MapF { static constexpr auto name = "c14_mapf"; static Port<TS<Int>> compose(Wiring &w, Port<TS<Int>> ts) { return wire<FNode>(w, wire<FNode>(w, ts, Int{21}), Int{22}); } };
     struct Br1 { static constexpr auto name = "c14_br1"; static Port<TS<Int>> compose(Wiring &w, Port<TS<Int>> ts) { return wire<FNode>(w, wire<FNode>(w, ts, Int{31}), Int{32}); } };
@@ -127,6 +137,8 @@ namespace
             case 'm': return {21, 22, 4};
             case 's': return {1, 31, 32, 33, 4};
             case 'r': return {50, 4};
+            case 't': return {1, 41, 42, 4};   // try_except_ around a value sub-graph
+            case 'k': return {1, 41, 43, 4};   // try_except_ around a SINK sub-graph
         }
         return {};
     }
@@ -173,6 +185,13 @@ namespace
                     cases.cases.push_back({Value{Int{1}}, fn<Br1>()});
                     cases.cases.push_back({Value{Int{2}}, fn<Br2>()});
                     last = wire<FNode>(w, wire<stdlib::switch_>(w, wire<KeyWriter>(w), cases, wire<FSrc>(w, Int{1})).template as<TS<Int>>(), Int{4});
+                }
+                else if (program == 't' || program == 'k')
+                {
+                    auto src = wire<FSrc>(w, Int{1});
+                    if (program == 't') { auto r = try_except_<TrySubV>(w, src); (void)r; }
+                    else wire<ErrSink>(w, try_except_<TrySubK>(w, src).template as<TS<NodeError>>());
+                    last = wire<FNode>(w, src, Int{4});
                 }
                 else if (program == 'r') last = wire<FNode>(w, wire<stdlib::reduce_>(w, fn<FSum>(), wire<DictWriter>(w)).template as<TS<Int>>(), Int{4});
                 else throw verif::HarnessError("bad program");
@@ -290,12 +309,16 @@ std::optional<std::string> verif_run_case(verif::Ctx &, const std::string &desc)
 void verif_enumerate(verif::Ctx &ctx)
 {
     const bool th = ctx.thorough();
-    for (char program : std::string{"fnmsr"})
+    for (char program : std::string{"fnmsrtk"})
     {
         std::vector<std::string> singles;
         for (long id : program_ids(program))
             for (int phase = 0; phase < 3; ++phase)
+            {
+                // an evaluate fault inside a try_except_ child is captured, not propagated: C15's subject, not injected here
+                if ((program == 't' || program == 'k') && phase == EVAL && id >= 40) continue;
                 for (int occ = 1; occ <= (th ? 5 : 3); ++occ) singles.push_back(std::to_string(id) + "." + std::to_string(phase) + "." + std::to_string(occ));
+            }
         std::vector<std::string> cases = {""};
         for (auto &s : singles) cases.push_back(s);
         for (auto &a : singles) for (auto &b : singles) if (a != b) cases.push_back(a + "," + b);
